@@ -50,7 +50,7 @@ _CFG = {
     "C09": {"streams": [DETECT, READER], "rule": INPUT_RULE, "trusted": INPUT_TRUST,
             "assumptions": ["the reader goroutine's cancellation (ctx.Done arm of the send) is covered by the C04 scenarios, not by this model"]},
     "C10": {"streams": [DETECT, READER], "rule": INPUT_RULE, "trusted": INPUT_TRUST},
-    "C11": {"streams": [DETECT], "rule": INPUT_RULE, "trusted": INPUT_TRUST},
+    "C11": {"streams": [DETECT, READER], "rule": INPUT_RULE, "trusted": INPUT_TRUST},
     "C12": {"scenarios": ["modes"], "streams": [GLUE], "trusted": RENDER_TRUST},
     "C13": {"scenarios": ["api"], "streams": [LIFE], "trusted": RUNTIME_TRUST},
     "C14": {"streams": [RENDER, VT], "rule": RENDER_RULE, "trusted": RENDER_TRUST},
